@@ -62,6 +62,24 @@ def mutateBytes (d : Bytes) (m : String) : Option Bytes :=
   else if m.startsWith "app=" then do
     let b ← Bytes.ofHex (m.drop 4).toString
     pure (d ++ b)
+  else if m.startsWith "tlvlen=" then
+    -- tlvlen=<tag>:<hex16>: overwrite the length field of the first TLV part with that tag in a handshake datagram
+    match (m.drop 7).toString.splitOn ":" with
+    | [tag, v] => do
+      let tag ← tag.toNat?
+      let v ← Bytes.ofHex v
+      if v.length ≠ 2 then none else
+      let rec go (fuel pos : Nat) : Bytes :=
+        match fuel with
+        | 0 => d
+        | fuel + 1 =>
+          if pos + 3 ≤ d.length && d.getD pos 0 ≠ 0 then
+            let len := d.getD (pos + 1) 0 * 256 + d.getD (pos + 2) 0
+            if d.getD pos 0 = tag then (d.set (pos + 1) (v.getD 0 0)).set (pos + 2) (v.getD 1 0)
+            else go fuel (pos + 3 + len)
+          else d
+      pure (go d.length 9)
+    | _ => none
   else if m.startsWith "endhex=" then do
     -- overwrite the last bytes (a signature, an authentication tag) with the given ones
     let b ← Bytes.ofHex (m.drop 7).toString
